@@ -444,7 +444,10 @@ type c03View struct {
 	limit  corev1.ResourceList
 }
 
-func (w *c03World) view(q *c03Quota) c03View {
+// view reads one group. The runtime quota is refreshed (a state-changing public call) only when
+// refresh is set, i.e. only for the oracle's read right after an admission check; everywhere else the
+// monitor stays read-only so that it cannot do the plugin's refreshing for it.
+func (w *c03World) view(q *c03Quota, refresh bool) c03View {
 	mgr := w.pl.GetGroupQuotaManagerForQuota(q.name)
 	if mgr == nil {
 		w.c.Harness("no quota manager for %s", q.name)
@@ -457,10 +460,13 @@ func (w *c03World) view(q *c03Quota) c03View {
 		w.c.Harness("group %s: plugin reports parent %q, harness built %q", q.name, s.ParentName, q.parent)
 	}
 	v := c03View{q: q, used: s.Used, npUsed: s.NonPreemptibleUsed, min: s.Min, max: s.Max}
-	if w.runtimeOn {
-		v.limit = mgr.RefreshRuntime(q.name) // "its runtime quota", as reported by the public refresh API
-	} else {
+	switch {
+	case !w.runtimeOn:
 		v.limit = s.Max
+	case refresh:
+		v.limit = mgr.RefreshRuntime(q.name) // "its runtime quota", as reported by the public refresh API
+	default:
+		v.limit = s.Runtime // last computed value, possibly stale: only used to aim requests
 	}
 	return v
 }
@@ -506,7 +512,7 @@ func (w *c03World) checkAll(where string) {
 	used, np := w.shadow()
 	for _, n := range w.order {
 		q := w.quotas[n]
-		v := w.view(q)
+		v := w.view(q, false)
 		for _, d := range q.dims {
 			ru, _ := c03Get(v.used, d)
 			if ru != used[n][d] {
@@ -599,7 +605,7 @@ func (w *c03World) headroom(leaf *c03Quota, np bool, useMax bool) c03Vec {
 	for _, d := range leaf.dims {
 		first := true
 		for _, q := range chain {
-			v := w.view(q)
+			v := w.view(q, false)
 			lim, ok := c03Get(v.limit, d)
 			if useMax {
 				lim, ok = q.max[d], true
@@ -614,7 +620,7 @@ func (w *c03World) headroom(leaf *c03Quota, np bool, useMax bool) c03Vec {
 			}
 		}
 		if np && c03Has(leaf.minDims, d) {
-			v := w.view(leaf)
+			v := w.view(leaf, false)
 			u, _ := c03Get(v.npUsed, d)
 			if first || leaf.min[d]-u < h[d] {
 				h[d] = leaf.min[d] - u
@@ -783,14 +789,14 @@ func (w *c03World) evaluate(p *c03Pod, views []c03View) (fails []c03Fail, exact,
 	return
 }
 
-func (w *c03World) readChain(p *c03Pod) []c03View {
+func (w *c03World) readChain(p *c03Pod, refresh bool) []c03View {
 	chain := w.chain(p.quota)
 	if !w.parentOn {
 		chain = chain[:1]
 	}
 	views := make([]c03View, 0, len(chain))
 	for _, q := range chain {
-		views = append(views, w.view(q))
+		views = append(views, w.view(q, refresh))
 	}
 	return views
 }
@@ -807,10 +813,17 @@ func (w *c03World) attempt(p *c03Pod) {
 	c, r := w.c, w.r
 	leaf := w.quotas[p.quota]
 	p.attempts++
-	before := w.readChain(p)
+	// usage and min are read before the check (read-only); the limit is read right after it, twice:
+	// nothing but the check happened in between, so "the quota's current limit" is the same before and
+	// after, and reading it afterwards keeps the monitor from refreshing the runtime on the plugin's behalf
+	before := w.readChain(p, false)
 	state := framework.NewCycleState()
 	_, status := w.pl.PreFilter(context.TODO(), state, p.obj, nil)
-	after := w.readChain(p)
+	after := w.readChain(p, true)
+	again := w.readChain(p, true)
+	for i := range before {
+		before[i].limit = after[i].limit
+	}
 	code := fwktype.Success
 	msg := ""
 	if status != nil {
@@ -823,7 +836,7 @@ func (w *c03World) attempt(p *c03Pod) {
 	}
 	stable := true
 	for i := range before {
-		if !c03SameRL(before[i].limit, after[i].limit, leaf.dims) || !c03SameRL(before[i].used, after[i].used, leaf.dims) ||
+		if !c03SameRL(again[i].limit, after[i].limit, leaf.dims) || !c03SameRL(before[i].used, after[i].used, leaf.dims) ||
 			!c03SameRL(before[i].npUsed, after[i].npUsed, leaf.dims) || !c03SameRL(before[i].min, after[i].min, leaf.dims) {
 			stable = false
 		}
@@ -875,7 +888,7 @@ func (w *c03World) attempt(p *c03Pod) {
 					sig = "C03/admit/over-own-limit/default-quota"
 					fail = c.Report
 				}
-				fail(sig, "pod %s (request %s, nonPreemptible=%v) was admitted to group %s although %s (runtimeQuota=%v checkParent=%v); state read before the check: %s",
+				fail(sig, "pod %s (request %s, nonPreemptible=%v) was admitted to group %s although %s (runtimeQuota=%v checkParent=%v); state at the check (usage read before it, limit read right after it): %s",
 					p.name, c03Str(p.req), p.np, p.quota, f.text, w.runtimeOn, w.parentOn, c03ViewsStr(before))
 			}
 			w.accepted++
@@ -885,7 +898,7 @@ func (w *c03World) attempt(p *c03Pod) {
 			}
 		} else {
 			if len(fails) == 0 {
-				c.Fail("C03/reject/unjustified", "pod %s (request %s, nonPreemptible=%v) was rejected from group %s with %q although every check the statement names passes (runtimeQuota=%v checkParent=%v); state read before the check: %s",
+				c.Fail("C03/reject/unjustified", "pod %s (request %s, nonPreemptible=%v) was rejected from group %s with %q although every check the statement names passes (runtimeQuota=%v checkParent=%v); state at the check (usage read before it, limit read right after it): %s",
 					p.name, c03Str(p.req), p.np, p.quota, msg, w.runtimeOn, w.parentOn, c03ViewsStr(before))
 			}
 			cited := false
